@@ -25,19 +25,19 @@ CLAIMED = {
     design="§7 C04", technique="Lean 4 proof of never-panics on the Outcome-model + differential totality sweep",
     note="panics inside dependency crates are outside the model; only the sweep sees them."),
  "C05": dict(
-    text="Lean theorems about dryoc's own part of X25519/kx (the arithmetic is dalek's): the clamp is idempotent and yields a scalar in [2^254, 2^255) divisible by 8, scalarmult feeds the clamped scalar itself to the ladder (= RFC 7748 X25519 by definition of the spec), key exchange refuses an all-zero shared secret, client rx/tx = server tx/rx given DH commutativity (hypothesis). Tied to the code by impl vs Lean RFC 7748 ladder vs libsodium on random pairs (≈94% off-subgroup), the complete low-order/non-canonical/high-bit table and honest kx pairs.",
+    text="Lean theorems about dryoc's own part of X25519/kx (the field arithmetic is dalek's): the clamp equals RFC 7748's, is idempotent and yields a scalar in [2^254, 2^255) divisible by 8; scalarmult feeds the clamped scalar ITSELF to the ladder, hence equals RFC 7748 X25519 (scalarmult_eq_x25519), while the pre-repair variant that reduces mod L differs on every clamped scalar (clamped_scalar_ge_L) and on concrete low-order/mixed points (kernel-checked witnesses); ladder k 0 = 0 for every k; key exchange refuses an all-zero shared secret (iff), never panics, and client rx/tx = server tx/rx given DH commutativity (hypothesis). Tied to the code by impl vs Lean RFC 7748 ladder vs libsodium on random pairs (≈94% off-subgroup), the complete low-order/non-canonical/high-bit table × scalar bit patterns, RFC vectors incl. the 1000-iteration vector, and honest kx pairs with the mirror check.",
     design="§7 C05", technique="Lean 4 proof (clamp, key schedule, zero refusal, mirror under DH-commutativity hypothesis) + differential correspondence impl/RFC-7748 Lean spec/libsodium",
     note="curve25519-dalek's field/group arithmetic is modelled by the Lean ladder, not verified; DH commutativity is a hypothesis."),
  "C06": dict(
-    text="Lean theorems over dryoc's signing/verification sequence (hashing, reduction mod L, encoding; curve ops from the Lean RFC 8032 spec): signing is the RFC 8032 function, combined = detached ‖ message, non-canonical S (S ≥ L, hence every S+kL) is rejected for every 256-bit S, short combined messages are rejected. Tied to the code by impl vs Lean RFC 8032/libsodium-strict spec vs libsodium on every message length, every single-bit mutation, the S+kL family, all small-order/non-canonical encodings and mode cross-overs.",
+    text="Lean theorems over dryoc's signing/verification sequence (hashing, reduction mod L, encoding; curve ops from the Lean RFC 8032 spec): the model's signature equals RFC 8032 sign for pure and pre-hashed mode and any chunking (sign_model_eq_spec, signPh_model_eq_spec), layout sig‖m and signOpen ok-iff, S ≥ L (every S+kL) rejected for every input, small-order or undecodable R/A rejected, full acceptance condition (verifyDetached_true_iff), domain separation of the two modes, verify∘sign over an abstract commutative group (the curve instantiating it is a hypothesis), model-vs-libsodium-strict agreement under explicit canonicity hypotheses, RFC 8032 TEST 1 kernel-checked through the model. Tied to the code by impl vs Lean spec vs libsodium on every message length, every single-bit mutation, the S+kL family in both modes, all small-order/non-canonical encodings, constructed torsion forgeries (mixed-order keys) and mode cross-overs.",
     design="§7 C06", technique="Lean 4 proof (signature layout, determinism, canonical-S rejection) + differential correspondence impl/RFC-8032 Lean spec/libsodium",
     note="dalek Edwards arithmetic and sha2 are modelled by Lean specs, not verified; verify∘sign needs the group law (abstract-group theorem)."),
  "C07": dict(
-    text="Lean theorems: the limb-level model of poly1305_soft.rs equals the RFC 8439 specification for every key and message (incl. all carry corners) and never overflows a checked u64/u128 operation; little-endian increment equals +1 mod 256^n. The models are tied to the code by a per-run differential run (impl vs model vs Lean spec vs libsodium) over every length 0..=L, every BLAKE2b digest/key length, and constructed Poly1305 carry corners.",
+    text="Lean theorems: the limb-level model of poly1305_soft.rs equals RFC 8439 for every key and message (all carry corners) and never overflows a checked u64/u128 operation; the model of blake2b_soft.rs (code-shaped compress = RFC 7693 F, parameter block, keyed init, buffering, finalize) equals RFC 7693 for every digest/key length; code-shaped HSalsa20 (16 named words, 32 statements × 10) = Salsa20 doubleround spec, HChaCha20 = RFC quarter-round spec, SipHash-2-4 (chunks_exact loop + remainder + len<<56) = the paper's word parsing for every length, HMAC-SHA-512-256 construction = RFC 2104 spec (SHA-512 a parameter), verify ok iff tag = MAC, little-endian increment = +1 mod 256^n. Tied to the code by impl vs model vs Lean spec vs libsodium over every length 0..=L, every BLAKE2b digest/key length and constructed Poly1305 carry corners.",
     design="§7 C07", technique="Lean 4 proof of model = spec (limb arithmetic, carries, overflow freedom) + differential correspondence impl/model/spec/libsodium",
     note="dependency crates (sha2) are modelled by the Lean spec, not verified."),
  "C08": dict(
-    text="Lean theorem: for the Poly1305 buffering model, any list of update chunks (empty, straddling, exactly filling) gives the one-shot result of the concatenation, and equals the RFC value. Tied to the code and extended to the other incremental interfaces by exhaustive 2-way/3-way split enumeration and random k-way partitions, impl incremental vs libsodium one-shot vs Lean spec.",
+    text="Lean theorems: Poly1305 — any list of update chunks (empty, straddling, exactly filling) gives the one-shot result; BLAKE2b — init; update c1..cn; finalize depends only on the concatenation FOR ANY COMPRESSION FUNCTION (so for the software and the SIMD backend), the held-back buffer never exceeds one block (dead finalize branch), incremental generichash with salt/personal = RFC 7693; HMAC incremental = one-shot (sha2's own buffering is not modelled). Tied to the code and extended to SHA-512 and incremental signing by exhaustive 2-way/3-way split enumeration and random k-way partitions, impl incremental vs libsodium one-shot vs Lean spec vs Lean buffering model.",
     design="§7 C08", technique="Lean 4 proof (induction over the chunk list with a buffering invariant) + exhaustive split enumeration",
     note="sha2's buffering (SHA-512/HMAC/incremental signing) is not modelled; differential only."),
  "C09": dict(
@@ -45,7 +45,7 @@ CLAIMED = {
     design="§7 C09", technique="Lean 4 proof (validation, index/offset arithmetic, H′ structure) + differential correspondence impl/model/RFC-9106 Lean spec/libsodium",
     note="full loop-nest equivalence model = RFC recurrence may be partial (named _partial); BLAKE2b compression trusted as specified."),
  "C10": dict(
-    text="Lean theorems over the string model (encoder, field-by-field parser as written, needs-rehash, verify): base64 and decimal round trips, parse∘encode = id for well-formed parameters of both algorithms (incl. salts whose base64 starts with 'argon2'), encode∘parse = id on canonical strings, needs_rehash = false iff both costs match. Tied to the code by strings produced by dryoc (salt fixed through hook H3, object API with salts 8..64 / hashes 16..128) verified by libsodium and vice versa, parse→re-encode, needs-rehash grid.",
+    text="Lean theorems over the string model (encoder, field-by-field parser as written, needs-rehash, verify): decimal and base64 round trips, the encoder never emits a separator inside a field, parse∘encode = ok with exactly the encoded fields for both algorithms and ANY non-empty salt/hash (incl. base64 text starting with 'argon2'), reencode∘encode = id, encode is injective (self-describing), needs_rehash = false iff both costs match (KiB truncation included), strVerify ok iff Argon2 reproduces the stored hash, parser/needs-rehash/verify never panic and parse-ok implies every later unwrap succeeds. Tied to the code by strings produced by dryoc (salt fixed through hook H3; object API with salts 8..64 and hashes 16..128) verified by libsodium and vice versa, parse→re-encode, needs-rehash grid.",
     design="§7 C10", technique="Lean 4 proof (round-trip theorems for encoder/parser, needs-rehash iff) + differential correspondence impl/model/libsodium",
     note="base64 crate and str::parse::<u32> are modelled (Spec.Base64, parseU32), Argon2 is the Lean RFC spec."),
  "C11": dict(
@@ -53,11 +53,11 @@ CLAIMED = {
     design="§7 C11", technique="Lean 4 proof (entropy data-flow model: draws_n, disjointness, component-is-draw) + hooked differential run + statistical oracle",
     note="the OS generator's quality is trusted."),
  "C12": dict(
-    text="Lean theorems: derive rejects exactly the lengths outside 16..=64; the derived subkey is BLAKE2b with digest length = requested length, key = master key, salt = le64(id)‖0^8, personal = ctx‖0^8 (libsodium's construction); (length, id, context) ↦ parameter block is injective. Tied to the code by impl vs model vs Lean BLAKE2b spec vs libsodium on all 49 lengths × boundary ids.",
+    text="Lean theorems: derive rejects exactly the lengths outside 16..=64 and never panics; the subkey is BLAKE2b with digest length = requested length, key = master key, salt = le64(id)‖0^8, personal = ctx‖0^8 (kdf_eq_spec: libsodium's construction); the id enters modulo 2^64 only; (length, id, context) ↦ parameter block is injective (param_block_injective) so distinct inputs give distinct initial chaining values. Tied to the code by impl vs model vs Lean BLAKE2b spec vs libsodium on all 49 lengths × boundary ids, rejected lengths, pairwise distinctness incl. the prefix relation.",
     design="§7 C12", technique="Lean 4 proof (range check iff, parameter-block injectivity) + differential correspondence impl/model/spec/libsodium",
     note="distinct digests for distinct parameter blocks is collision resistance, checked per batch only."),
  "C13": dict(
-    text="Lean theorems: seeded key generation in the model is definitionally libsodium's construction (box: SHA-512(seed)[0..32] then base-point multiple for seeds of any length; kx: BLAKE2b-32; sign: seed‖A), the converted secret key is the signing scalar. Tied to the code by impl vs model vs Lean spec vs libsodium on seeds of every length 0..=128 and the conversion-consistency check on every generated pair.",
+    text="Lean theorems: seeded key generation in the model is libsodium's construction for seeds of any length (box: SHA-512(seed)[0..32] then base-point multiple, SHA-512 output length proved; kx: BLAKE2b-32; sign: seed‖A), clampHash = RFC clamp, the converted secret key is exactly the signing scalar and equals the spec's conversion, the converted pair is consistent given that the birational map commutes with scalar multiplication (explicit hypothesis MapCommutes, kernel-checked on instances). Tied to the code by impl vs model vs Lean spec vs libsodium on seeds of every length 0..=128, every clamp-bit pattern, password-derived pairs (incl. non-default Config lengths) and the conversion-consistency check on every generated pair.",
     design="§7 C13", technique="Lean 4 proof (constructions, clamp facts) + differential correspondence impl/model/spec/libsodium",
     note="the Ed→Montgomery map commuting with scalar multiplication is a hypothesis (group law not in Mathlib)."),
  "C14": dict(
